@@ -6,6 +6,7 @@ usage: tools/neutral_eval.py [import <srcdir>] [names...]
 import json, os, subprocess, tempfile, shutil, sys
 from concurrent.futures import ThreadPoolExecutor
 V = "/verif"
+KIND = os.environ.get("NEUTRAL_KIND", "neutral")   # "neutral": behaviour-preserving refactorings; "benign": feature additions that keep every property
 args = sys.argv[1:]
 if args[:1] == ["import"]:
     src = args[1]
@@ -17,7 +18,7 @@ if args[:1] == ["import"]:
         for fn in sorted(os.listdir(out)):
             if fn.startswith("patch_") and fn.endswith(".diff"):
                 i = fn[len("patch_"):-len(".diff")]
-                d = os.path.join(V, "neutral", "%s-%s" % (nid, i))
+                d = os.path.join(V, KIND, "%s-%s" % (nid, i))
                 os.makedirs(d, exist_ok=True)
                 shutil.copy(os.path.join(out, fn), os.path.join(d, "patch.diff"))
                 why = os.path.join(out, "why_%s.txt" % i)
@@ -27,7 +28,7 @@ man = json.load(open(V + "/MANIFEST.json"))
 
 
 def evaluate(name):
-    d = os.path.join(V, "neutral", name)
+    d = os.path.join(V, KIND, name)
     if not os.path.exists(os.path.join(d, "patch.diff")) or (args and name not in args):
         return None
     scratch = tempfile.mkdtemp(prefix="neutral-")
@@ -55,16 +56,17 @@ def evaluate(name):
     return res
 
 
-names = sorted(os.listdir(V + "/neutral")) if os.path.isdir(V + "/neutral") else []
+names = sorted(os.listdir(V + "/" + KIND)) if os.path.isdir(V + "/" + KIND) else []
 with ThreadPoolExecutor(int(os.environ.get("REEVAL_JOBS", "4"))) as ex:
     rows = [r for r in ex.map(evaluate, names) if r]
 allrows = []
 for n in names:
-    rp = os.path.join(V, "neutral", n, "result.json")
+    rp = os.path.join(V, KIND, n, "result.json")
     if os.path.exists(rp):
         allrows.append(json.load(open(rp)))
-with open(V + "/neutral/INDEX.md", "w") as fh:
-    fh.write("# Behaviour-preserving refactorings written by independent sub-agents\n\nEach was written without any knowledge of /verif, compiles, passes the 604 existing "
+with open(V + "/" + KIND + "/INDEX.md", "w") as fh:
+    fh.write(("# Feature additions that keep every property, written by independent sub-agents" if KIND == "benign" else "# Behaviour-preserving refactorings written by independent sub-agents") + "\n\n")
+    fh.write("\n\nEach was written without any knowledge of /verif, compiles, passes the 604 existing "
              "tests and comes with an argument why behaviour is unchanged for every input (`why.txt`). Every claimed check is run against each (on a scratch copy); "
              "a report on one of them is a false alarm of the check.\n\n| refactoring | checks that report something (now) |\n|---|---|\n")
     for r in allrows:
